@@ -52,7 +52,7 @@ class AddWF:
         Update the electron e position to epos, for each wf component in self.wf_components
         """
         if saved_values is None:
-            saved_values = [None] * len(self.wf_factors)
+            saved_values = [None] * len(self.wf_components)
         for wf, saved in zip(self.wf_components, saved_values):
             wf.updateinternals(e, epos, configs, mask=mask, saved_values=saved)
 
